@@ -427,7 +427,7 @@ pub fn c16(tier: Tier) -> i32 {
     let tower_id = tower.id();
     let mut evals = 0u64;
     let mut distinct: BTreeSet<String> = BTreeSet::new();
-    let u32s: Vec<u32> = vec![0, 1, 255, 256, i32::MAX as u32, (i32::MAX as u32) + 1, u32::MAX];
+    let u32s: Vec<u32> = vec![0, 1, 255, 256, 65535, 65536, 1 << 24, i32::MAX as u32, (i32::MAX as u32) + 1, u32::MAX];
     let locs: Vec<[u8; 16]> = vec![[0u8; 16], [0xff; 16], *b"\x00\x01\x02\x03\x04\x05\x06\x07\x08\x09\x0a\x0b\x0c\x0d\x0e\x0f", [0x7f; 16]];
     let blob_lens: Vec<usize> = if tier == Tier::Quick { vec![0, 1, 2, 3, 16, 33, 64, 500, 850] } else { (0..=64).chain([100, 255, 256, 500, 800, 850, 870]).collect() };
     let sigs: Vec<String> = vec!["a".into(), "signature with spaces".into(), "y".repeat(104), "\u{00e9}\u{1F600}".into(), "\"quoted\\\"".into()];
